@@ -419,7 +419,10 @@ def r16_4(rep: Report, idx: Index, cg: CallGraph) -> None:
                 continue
             for s in steps:
                 loops += 1
-                key = f'while {short(loop.test, 40)}: {norm(s)}'
+                # the key names the bound and the step, not the counter (a renamed counter is the same loop)
+                cname_ = norm(s.target)
+                key = re.sub(rf'(?<![\w.]){re.escape(cname_)}(?![\w])', '<counter>',
+                             f'while {short(loop.test, 40)}: {norm(s)}')
                 ok, why = _positive(s.value, loop, f.node)
                 if ok:
                     rep.ok(rid, f.construct(), key, why)
